@@ -97,23 +97,30 @@ variable (ti ti' : TypeInfo) (p p' : Program)
 variable (N : String → String) (F : Callable → Callable) (G : Callable → Call → Call)
 variable (S : String → Env → Env) (O : String → Bool → RExp → RExp) (R : RExp → RExp)
 variable (good : Callable → Prop) (Ienv : Callable → Env → Prop) (Jo : Callable → RExp → Prop)
+variable (relN : String → Prop)
 
-/-- how the resolved outputs of the calls of `pipe` change: by `O` of the callee -/
-def Osib (pipe : Callable) (sib : String → RExp) : String → RExp := fun id =>
+/-- the callee (name, kind) of call `id` of `pipe`; `("", false)` when there is none -/
+def calleeOf (pipe : Callable) (id : String) : String × Bool :=
   match pipe.calls.find? (·.id == id) with
   | some k =>
     match p.find? k.decId with
-    | some d => O d.name d.isPipe (sib id)
-    | none => sib id
-  | none => sib id
+    | some d => (d.name, d.isPipe)
+    | none => ("", false)
+  | none => ("", false)
+
+/-- how the resolved outputs of the calls of `pipe` change: by `O` of the callee -/
+def Osib (pipe : Callable) (sib : String → RExp) : String → RExp := fun id =>
+  O (calleeOf p pipe id).1 (calleeOf p pipe id).2 (sib id)
 
 structure SimHyp : Prop where
   hfind1 : ∀ n d, p.find? n = some d → p'.find? (N n) = some (F d) ∧ good d
-  hfind0 : ∀ n, p.find? n = none → p'.find? (N n) = none
+  hfind0 : ∀ n, relN n → p.find? n = none → p'.find? (N n) = none
+  hrel : ∀ pipe, good pipe → ∀ k ∈ pipe.calls, relN k.decId
   hF : ∀ c, good c → (F c).isPipe = c.isPipe ∧ (F c).name = N c.name ∧
         (F c).outs.isEmpty = c.outs.isEmpty ∧ (F c).ret.isEmpty = c.ret.isEmpty
   hcalls : ∀ pipe, good pipe → (F pipe).calls = pipe.calls.map (G pipe)
-  hG : ∀ pipe k, (G pipe k).id = k.id ∧ (G pipe k).decId = N k.decId
+  hGid : ∀ pipe k, (G pipe k).id = k.id
+  hGdec : ∀ pipe, good pipe → ∀ k ∈ pipe.calls, (G pipe k).decId = N k.decId
   hfirst : ∀ pipe, good pipe → ∀ k ∈ pipe.calls, pipe.calls.find? (·.id == k.id) = some k
   hO0 : ∀ n b, O n b rnull = rnull
   hOs : ∀ d fq, good d → d.isPipe = false → O d.name false (.sref fq d.name []) = .sref fq (N d.name) []
@@ -133,14 +140,14 @@ structure SimHyp : Prop where
   c7 : ∀ d ins sib, good d → d.isPipe = true → Ienv d ins → SibOK p Jo d sib →
       pipeRetained (F d) (S d.name ins) (Osib p O d sib) = (pipeRetained d ins sib).map R
 
-variable {ti ti' p p' N F G S O R good Ienv Jo}
+variable {ti ti' p p' N F G S O R good Ienv Jo relN}
 
-theorem SimHyp.sibOK (h : SimHyp ti ti' p p' N F G S O R good Ienv Jo) :
+theorem SimHyp.sibOK (h : SimHyp ti ti' p p' N F G S O R good Ienv Jo relN) :
     ∀ fuel pipe self pre, good pipe → Ienv pipe self →
       SibOK p Jo pipe (callOutputs ti p fuel pipe self pre) :=
   callOutputs_inv ti p good Ienv Jo (fun n d hd => (h.hfind1 n d hd).2) h.o0 h.o0s h.o1 h.o2
 
-theorem sim_outputs (h : SimHyp ti ti' p p' N F G S O R good Ienv Jo) :
+theorem sim_outputs (h : SimHyp ti ti' p p' N F G S O R good Ienv Jo relN) :
     ∀ fuel pipe self pre, good pipe → Ienv pipe self →
       callOutputs ti' p' fuel (F pipe) (S pipe.name self) pre
         = Osib p O pipe (callOutputs ti p fuel pipe self pre) := by
@@ -149,22 +156,20 @@ theorem sim_outputs (h : SimHyp ti ti' p p' N F G S O R good Ienv Jo) :
   | zero =>
     intro pipe self pre _ _
     funext id
-    simp only [callOutputs, Osib]
-    split
-    · split <;> simp [h.hO0]
-    · rfl
+    simp only [callOutputs, Osib, h.hO0]
   | succ fuel ih =>
     intro pipe self pre hg hi
     funext id
     have hsib := h.sibOK fuel pipe self pre hg hi
-    simp only [Osib]
-    rw [callOutputs, h.hcalls pipe hg, find_map_id (G pipe) (fun k => (h.hG pipe k).1)]
+    simp only [Osib, calleeOf]
+    rw [callOutputs, h.hcalls pipe hg, find_map_id (G pipe) (fun k => h.hGid pipe k)]
     cases hk : pipe.calls.find? (·.id == id) with
-    | none => simp [callOutputs, hk]
+    | none => simp [callOutputs, hk, h.hO0]
     | some k =>
-      simp only [Option.map_some, (h.hG pipe k).2]
+      have hkm := (call_mem pipe id k hk).1
+      simp only [Option.map_some, h.hGdec pipe hg k hkm]
       cases hd : p.find? k.decId with
-      | none => simp [callOutputs, hk, hd, h.hfind0 _ hd]
+      | none => simp [callOutputs, hk, hd, h.hfind0 _ (h.hrel pipe hg k hkm) hd, h.hO0]
       | some d =>
         have ⟨hd', hgd⟩ := h.hfind1 _ _ hd
         have hF := h.hF d hgd
@@ -194,7 +199,7 @@ def nodeMap (N : String → String) (S : String → Env → Env) (O : String →
     inputs := S n.callable n.inputs, outputs := O n.callable n.isPipe n.outputs,
     retained := n.retained.map R }
 
-theorem sim_nodes (h : SimHyp ti ti' p p' N F G S O R good Ienv Jo) (big : Nat) :
+theorem sim_nodes (h : SimHyp ti ti' p p' N F G S O R good Ienv Jo relN) (big : Nat) :
     ∀ fuel pipe self pre k, good pipe → Ienv pipe self → k ∈ pipe.calls →
       pipe.calls.find? (·.id == k.id) = some k →
       nodesOf ti' p' big fuel (F pipe) (S pipe.name self) pre (G pipe k)
@@ -205,9 +210,9 @@ theorem sim_nodes (h : SimHyp ti ti' p p' N F G S O R good Ienv Jo) (big : Nat) 
   | succ fuel ih =>
     intro pipe self pre k hg hi hmem hk
     rw [nodesOf, nodesOf]
-    simp only [(h.hG pipe k).2, (h.hG pipe k).1]
+    simp only [h.hGdec pipe hg k hmem, h.hGid pipe k]
     cases hd : p.find? k.decId with
-    | none => simp [h.hfind0 _ hd]
+    | none => simp [h.hfind0 _ (h.hrel pipe hg k hmem) hd]
     | some d =>
       have ⟨hd', hgd⟩ := h.hfind1 _ _ hd
       have hF := h.hF d hgd
@@ -221,7 +226,7 @@ theorem sim_nodes (h : SimHyp ti ti' p p' N F G S O R good Ienv Jo) (big : Nat) 
       · -- the node itself
         have hout : Osib p O pipe (callOutputs ti p (big + 1) pipe self pre) k.id
             = O d.name d.isPipe (callOutputs ti p (big + 1) pipe self pre k.id) := by
-          simp [Osib, hk, hd]
+          simp [Osib, calleeOf, hk, hd]
         rw [hout]
         cases hp : d.isPipe with
         | false => simp
@@ -235,10 +240,9 @@ theorem sim_nodes (h : SimHyp ti ti' p p' N F G S O R good Ienv Jo) (big : Nat) 
           rw [h.hcalls d hgd, List.flatMap_map, List.map_flatMap]
           apply flatMap_congr'
           intro k' hk'
-          have hfq : pre ++ [(G pipe k).id] = pre ++ [k.id] := by rw [(h.hG pipe k).1]
           exact ih d _ _ k' hgd hid hk' (h.hfirst d hgd k' hk')
 
-theorem sim_graph (h : SimHyp ti ti' p p' N F G S O R good Ienv Jo)
+theorem sim_graph (h : SimHyp ti ti' p p' N F G S O R good Ienv Jo relN)
     (htop : ∀ t, p.top = some t → p'.top = some (G (topPipe t) t) ∧ F (topPipe t) = topPipe (G (topPipe t) t)
         ∧ good (topPipe t) ∧ Ienv (topPipe t) [])
     (htop0 : p.top = none → p'.top = none)
